@@ -17,11 +17,11 @@ type Stage struct {
 	Name     string
 	Do       func(w *World)
 	Policy   *Policy
-	Steps    int                  // >0: run exactly this many kernel steps
-	Until    func(w *World) bool  // optional additional end condition (checked after each step)
-	Quiet    bool                 // run until the world is quiet (see RunQuiet)
-	Window   time.Duration        // quiet window override
-	MaxSteps int                  // budget for Quiet / Until stages (default 4000)
+	Steps    int                 // >0: run exactly this many kernel steps
+	Until    func(w *World) bool // optional additional end condition (checked after each step)
+	Quiet    bool                // run until the world is quiet (see RunQuiet)
+	Window   time.Duration       // quiet window override
+	MaxSteps int                 // budget for Quiet / Until stages (default 4000)
 	Check    func(w *World) *Violation
 	OnBudget func(w *World) *Violation // the stage did not end within MaxSteps (liveness oracle); nil = inconclusive
 }
@@ -142,7 +142,7 @@ func (w *World) runStage(st *Stage) bool {
 			w.budget = true
 			w.budgetAt = st.Name
 			if st.OnBudget != nil {
-				if v := st.OnBudget(w); v != nil {
+				if v := st.OnBudget(w); v != nil && !w.Known(v) {
 					v.Step = w.step
 					w.Violation = v
 				}
@@ -173,7 +173,7 @@ func (w *World) runStage(st *Stage) bool {
 		return false
 	}
 	if st.Check != nil {
-		if v := st.Check(w); v != nil {
+		if v := st.Check(w); v != nil && !w.Known(v) {
 			if v.Step == 0 {
 				v.Step = w.step
 			}
@@ -239,8 +239,9 @@ func (w *World) incarnation() (finished bool) {
 }
 
 // RunScenario executes one run to completion (all incarnations).
-func RunScenario(t *testing.T, sc *Scenario, tape *Tape, salt uint64) *Result {
+func RunScenario(t *testing.T, sc *Scenario, tape *Tape, salt uint64, known []KnownFinding) *Result {
 	w := NewWorld(tape)
+	w.KnownFindings = known
 	GlobalSetup(w, salt)
 	sc.Init(w)
 	for i := 0; i < 64; i++ {
